@@ -79,6 +79,13 @@ func AppendDecimal(b []byte, f float64, dec int) []byte {
 	if dec < 0 || 17 < dec {
 		dec = 17
 	}
+	// the scaled number must fit an int64: drop decimals that lie beyond the precision of a float64 anyway
+	for 0 < dec && 9e18 <= math.Abs(f)*math.Pow10(dec) {
+		dec--
+	}
+	if 9e18 <= math.Abs(f) {
+		return AppendFloat(b, f, 17)
+	}
 	f *= math.Pow10(dec)
 
 	// correct rounding
